@@ -17,6 +17,8 @@ type eqSpec struct {
 	Dom       map[string]Domain
 	KeepOpaque map[string]bool // extra repo callees to keep opaque (canonical name -> pure)
 	Ignore    map[string]bool // callee names whose call events are ignored on both sides (logging)
+	Exact     bool
+	Inline    map[string]bool // repo callees to inline although they are in repoOpaque
 }
 
 const refPkg = "verif/checker/ref"
@@ -96,6 +98,9 @@ func runEquiv(c *Check, p *Prog, spec eqSpec, points int) *eqResult {
 	for k, v := range spec.KeepOpaque {
 		ro[k] = v
 	}
+	for k := range spec.Inline {
+		delete(ro, k)
+	}
 	xa := NewExt(p, S, Config{Opaque: opaqueExcept(ro, canonFunc(fa))})
 	xb := NewExt(rp, S, Config{Opaque: opaqueExcept(refOpaque, canonFunc(fb))})
 	sa := xa.Summarize(fa, nil, nil)
@@ -117,6 +122,7 @@ func runEquiv(c *Check, p *Prog, spec eqSpec, points int) *eqResult {
 		m.Env.Dom[k] = v
 	}
 	m.IgnoreCallees = spec.Ignore
+	m.Exact = spec.Exact
 	res.OK = m.Run()
 	res.Fails = m.Fails
 	res.NLoops, res.NEvents, res.NCmp = m.nLoops, m.nEvents, m.nCmp
